@@ -3,6 +3,7 @@ package props
 import (
 	"fmt"
 	"strings"
+	"sync"
 	"testing"
 
 	lib "github.com/corazawaf/libinjection-go"
@@ -104,15 +105,21 @@ func decodesToScheme(v string) bool {
 	return false
 }
 
-var urlAttrs = func() []string {
-	var o []string
-	for _, a := range lib.VBlackAttrs() {
-		if a.Type == 2 {
-			o = append(o, gen.LowerASCII(a.Name))
+var (
+	urlAttrOnce sync.Once
+	urlAttrVal  []string
+)
+
+func urlAttrList() []string {
+	urlAttrOnce.Do(func() {
+		for _, a := range lib.VBlackAttrs() {
+			if a.Type == 2 {
+				urlAttrVal = append(urlAttrVal, gen.LowerASCII(a.Name))
+			}
 		}
-	}
-	return o
-}()
+	})
+	return urlAttrVal
+}
 
 func c19Oracle(c ev.Case) Res {
 	switch c.Kind {
@@ -160,7 +167,7 @@ func c19Oracle(c ev.Case) Res {
 			q = "`"
 		}
 		if q != "" {
-			attr := urlAttrs[c.N%len(urlAttrs)]
+			attr := urlAttrList()[c.N%len(urlAttrList())]
 			doc := "<a " + attr + "=" + q + e + q + ">"
 			if !lib.IsXSS(doc) {
 				return fail("IsXSS(%q) is false although the %s value encodes a script-capable scheme", doc, attr)
